@@ -511,6 +511,84 @@ theorem emitted_never_reserved {t : Target} {reserved : List String} {p : Progra
     rw [this]
     exact never_reserved h x (lookup_mem hx).1
 
+/-- **introduced_names_reserved_as_modelled** (obligation on the regenerated tables): every fixed identifier the Metal /
+HLSL generator introduces by itself into a scope that holds user-named entities — the implicit parameters
+`thread_index_in_simdgroup` / `threads_per_simdgroup` / `o_mesh` / `o_payload` / `mesh_grid_properties`, the stage locals
+`in` / `out`, the wrapper, stage-struct and argument-buffer names, the helper namespace — and every identifier constant of
+`names.rs` is in the target's `RESERVED_NAMES`; the implicit-parameter table is part of the introduced names.
+Not covered (and false): the numbered `format!` identifiers `set<i>`, `InlineDescriptor<n>`, `g_inlineDescriptor<n>`
+(`Gen.Reserved.*IntroducedPatterns`), see `generated_name_clash_witness`; `generator/intrinsic_helpers.rs` declares only
+inside `namespace helper`, in scopes that hold no user entity. -/
+theorem introduced_names_reserved_as_modelled :
+    (∀ n ∈ Gen.Reserved.mslIntroduced, n ∈ Gen.Reserved.msl) ∧
+    (∀ n ∈ Gen.Reserved.mslFixed, n ∈ Gen.Reserved.msl) ∧
+    (∀ n ∈ Gen.Reserved.hlslIntroduced, n ∈ Gen.Reserved.hlsl) ∧
+    (∀ q ∈ Gen.Reserved.mslImplicitParams, q.2 ∈ Gen.Reserved.mslIntroduced) :=
+  Lemmas.NamesTables.introduced_names_reserved_as_modelled
+
+/-- **implicit_params_as_modelled**: the names, the triggering intrinsics and the order of the implicit wave parameters of
+`Model.NamesEmit` are those of msl/src/generator.rs (+ pipeline.rs) today. -/
+theorem implicit_params_as_modelled :
+    Gen.Reserved.mslImplicitParams.lookup "ThreadIndexInSimdgroup" = some (waveName 0) ∧
+    Gen.Reserved.mslImplicitParams.lookup "ThreadsPerSimdgroup" = some (waveName 1) ∧
+    Gen.Reserved.mslImplicitIntrinsics =
+      [("WaveGetLaneCount", "ThreadsPerSimdgroup", waveName (waveCode true)),
+       ("WaveGetLaneIndex", "ThreadIndexInSimdgroup", waveName (waveCode false))] ∧
+    Gen.Reserved.mslImplicitOrder.take 2 = ["ThreadIndexInSimdgroup", "ThreadsPerSimdgroup"] ∧
+    Gen.Reserved.mslImplicitOrder.getLast? = some "Global" ∧
+    Gen.Reserved.fact_implicitSorted = true :=
+  Lemmas.NamesTables.implicit_params_as_modelled
+
+/-- **implicit_params_apart_from_managed** (full, any program, any target, any reserved list that contains the two
+implicit parameter names): no declaration of a map-managed entity anywhere in the emitted program — in particular no
+parameter, local, threaded global or wrapper local of a function scope that also declares an implicit wave parameter — is
+spelled like an implicit wave parameter.  The reason is the reservation (`hres`); without it the statement is false
+(`implicit_param_clash_without_reservation_witness`). -/
+theorem implicit_params_apart_from_managed {t : Target} {reserved : List String} {p : Program} {names : List Named}
+    (hres : ∀ w, waveName w ∈ reserved)
+    (h : build reserved (namesInput t p) = .ok names) {sc : Scope} {k n : String} {s : Sym}
+    (htok : Tok.decl sc k n (.sym s) ∈ emit t names p) (hk : k ≠ "N") (hs : (lookup names s).isSome) (w : Nat) :
+    n ≠ waveName w := by
+  intro heq
+  exact emitted_never_reserved h htok hk hs (heq ▸ hres w)
+
+/-- the same for Metal with the regenerated `RESERVED_NAMES` (the hypothesis is discharged on the table) -/
+theorem implicit_params_apart_from_managed_msl {p : Program} {names : List Named}
+    (h : build Gen.Reserved.msl (namesInput .msl p) = .ok names) {sc : Scope} {k n : String} {s : Sym}
+    (htok : Tok.decl sc k n (.sym s) ∈ emit .msl names p) (hk : k ≠ "N") (hs : (lookup names s).isSome) (w : Nat) :
+    n ≠ waveName w :=
+  implicit_params_apart_from_managed Lemmas.NamesTables.wave_names_reserved h htok hk hs w
+
+/-- every declaration of a generated (`.gen`) entity the wave machinery emits is spelled `waveName w`: the declarations
+`waveParams` produces are exactly the implicit parameters -/
+theorem waveParams_decls (t : Target) (sc : Scope) (p : Program) (f : Nat) :
+    ∀ tok ∈ waveParams t sc p f, ∃ w, tok = .decl sc "P" (waveName w) (.gen (waveName w)) := by
+  intro tok htok
+  unfold waveParams at htok
+  split at htok
+  · obtain ⟨w, _, rfl⟩ := List.mem_map.mp htok
+    exact ⟨w, rfl⟩
+  · simp at htok
+
+/-- non-vacuity: on Metal, with the regenerated table, the helper of `pWave` declares the renamed user parameter next to
+both implicit parameters, the entry point and the wrapper declare them as well (and HLSL declares none) -/
+example :
+    (Lemmas.NamesEmitWitness.toks .msl Lemmas.NamesEmitWitness.pWave).map (fun l => (l.map render).take 5) =
+      some ["F:zqf", "(", "P:threads_per_simdgroup_0", "P:thread_index_in_simdgroup", "P:threads_per_simdgroup"] := by
+  have := Lemmas.NamesEmitWitness.wave_params_emitted.1
+  simp only [Option.map_eq_some_iff] at this ⊢
+  obtain ⟨l, hl, hr⟩ := this
+  exact ⟨l, hl, by rw [hr]; rfl⟩
+
+/-- **the reservation is necessary** (seeded mutant C15-6 on the model): with `threads_per_simdgroup` removed from the
+Metal table, `int zqf(int threads_per_simdgroup) { WaveGetLaneIndex(); WaveGetLaneCount(); threads_per_simdgroup; }`
+declares two parameters `threads_per_simdgroup` in one function scope -/
+theorem implicit_param_clash_without_reservation_witness :
+    let l := Lemmas.NamesEmitWitness.toksWith (Gen.Reserved.msl.erase "threads_per_simdgroup") .msl Lemmas.NamesEmitWitness.pWave
+    (l.map fun l => l.contains (.decl (.func 0) "P" "threads_per_simdgroup" (.sym ⟨.localVar, 0⟩))) = some true ∧
+    (l.map fun l => l.contains (.decl (.func 0) "P" "threads_per_simdgroup" (.gen "threads_per_simdgroup"))) = some true :=
+  Lemmas.NamesEmitWitness.wave_clash_without_reservation
+
 /-- **emitted_injective_file_scope** (lift of `injective_per_scope`): two file-scope declarations of the emitted program
 that sit in the same namespace block and declare different structs / enums / globals / functions carry different
 names.  `hnodup`: every symbol has one registry entry (ordinals are unique). -/
